@@ -88,7 +88,7 @@ def axis_py(ax):
 class C08(Prop):
     id = "C08"
     theorems = ["reduce_axes_spec", "fibre_get", "fibre_length", "dealWithAxis_name_pos", "reduce_none_scalar",
-                "reduce_tuple_eq_flatten", "getFunc_table_policy", "getFunc_table_covers"]
+                "reduce_tuple_eq_flatten", "getFunc_table_policy", "getFunc_table_covers", "reduce_none_row_major", "reduce_rank1_scalar", "dealWithAxis_pos_spec", "reduce_name_spec", "reduce_commute_transpose", "reduce_tuple_cells"]
     rule = ("float/int/bool arrays of rank 1-4, sizes 1-4, NaN patterns none / some / whole fibre / all; every reduction "
             "(sum prod mean var std min max ptp all any median) x axis by name / position / negative position / tuple of "
             "names in any order / None x skipna; percentile with scalar and list pct. The (function, skipna) -> NumPy "
